@@ -513,6 +513,15 @@ def fresh_ops(ctx):
                    'load-yml', 'load-json', 'load-pkl', 'to_file', 'evaluate-built-elsewhere',
                    'set_value-then-evaluate-built-elsewhere'):
             cases.append((iterative, op, spec, target, inp, ref))
+    # an array formula whose result has not the shape of its target (a scalar repeated, a column cut): the array
+    # context of the thread is what fits it, and the very first thing the new thread does is evaluating it
+    arr = {'sheets': [['Sheet1', {'B1': 1, 'B2': 2, 'B3': 3}]], 'names': {}, 'calc': None,
+           'arrays': [['Sheet1', 'A1:A3', '=SUM(B1:B3)'], ['Sheet1', 'D1:E2', '=B1:B3*2']]}
+    for target in ('Sheet1!A1:A3', 'Sheet1!D1:E2', 'Sheet1!A2'):
+        ref = wb.outcome(wb.compile_mem(arr).evaluate, target)
+        for op in ('evaluate', 'evaluate-xlsx', 'load-yml', 'load-pkl', 'evaluate-built-elsewhere',
+                   'set_value-then-evaluate-built-elsewhere'):
+            cases.append((False, op, arr, target, 'Sheet1!B1', ref))
     # a workbook whose functions look references up themselves (CELL, INDEX over OFFSET): built and evaluated on the
     # main thread, then a workbook of the same kind with other values is evaluated there (it loads the functions
     # last), then the first one is used on a new thread
@@ -525,7 +534,7 @@ def fresh_ops(ctx):
     for n, (iterative, op, spec, target, inp, ref) in enumerate(cases):
         if not ctx.mine(n):
             continue
-        tag = f'{"iterative" if iterative else "cellref" if spec.get("decoy") else "plain"}'
+        tag = f'{"iterative" if iterative else "cellref" if spec.get("decoy") else "array" if spec["arrays"] else "plain"}'
         decoy = spec.get('decoy')
         spec = {k: v for k, v in spec.items() if k != 'decoy'}
         path = os.path.join(tmp, f'f{n}')
